@@ -17,7 +17,8 @@ import sys
 import time
 
 import corpus
-from vlib import REPO, Check, RunnerPool, compile_job, driver, hexs, log, unhex
+import vlib
+from vlib import BUILD, REPO, Check, RunnerPool, compile_job, driver, hexs, log, unhex
 
 sys.path.insert(0, os.path.dirname(os.path.dirname(os.path.abspath(__file__))))
 import translate_iter_sites  # noqa: E402
@@ -98,7 +99,8 @@ def gen_program(rng, k=None):
              "unknown-builtin", "modvars-plain", "modvars-forward", "modfns-builtin", "with-unknown", "with-ok",
              "forward-with", "forward-show", "forward-hide", "forward-as", "extend-multi", "extend-placeholder",
              "import-many", "map-each", "units", "star-use", "load-css", "exists", "named-all", "missing",
-             "both", "selector-fns", "at-root", "nested-props", "fn-shadow"]
+             "both", "selector-fns", "at-root", "nested-props", "fn-shadow",
+             "competing", "competing", "competing-use", "deep-fn", "deep-mixin"]
     kind = k or rng.choice(kinds)
     kv = ", ".join(f"${x}: {i + 1}" for i, x in enumerate(n))
     decl = "; ".join(f"${x}: {i + 1}" for i, x in enumerate(n)) + ";"
@@ -200,7 +202,53 @@ def gen_program(rng, k=None):
     elif kind == "fn-shadow":
         f = {"e.scss": decl + f" @function f(${n[0]}){{ ${n[1]}: 7; @return ${n[0]} ${n[1]}; }} a{{b: f(5) ${n[1]}; "
                               f"@each ${n[0]} in 1 2 {{ c: ${n[0]} }} }}"}
+    elif kind in ("competing", "competing-use"):
+        # the same url has a candidate in several load paths: which one wins is decided by their order only
+        dirs = rng.sample(["pa", "pb", "pc"], rng.randint(2, 3))
+        f = {}
+        for d in dirs:
+            f[f"{d}/_t.scss"] = f"$w: from-{d}; @function where() {{ @return {d} }} .{d}-{n[0]} {{ x: {d} }}"
+        if rng.random() < 0.3:
+            f[f"{dirs[-1]}/_only.scss"] = f"$o: only-{dirs[-1]};"
+        f["e.scss"] = ("@use 't'; a{b: t.$w t.where()}" if kind == "competing-use" else "@import 't'; a{b: $w where()}") + \
+                      (" @import 'only'; c{d:$o}" if any(k.endswith("_only.scss") for k in f) else "")
+        return P(files=f, entry="e.scss", options={"load_paths": rng.sample(dirs, len(dirs))}, origin="gen:" + kind)
+    elif kind == "deep-fn":
+        d = rng.randint(150, 200)
+        f = {"e.scss": f"@function r($n){{ @if $n <= 0 {{ $s: 0; @for $i from 1 through {rng.randint(800, 2000)} {{ $s: $s + $i }} @return $s }} "
+                       f"@return 1 + r($n - 1) }} a{{b:r({d})}}"}
+    elif kind == "deep-mixin":
+        d = rng.randint(150, 200)
+        f = {"e.scss": f"@mixin m($n){{ @if $n <= 0 {{ @for $i from 1 through {rng.randint(200, 500)} {{ x#{{$i}}: $i }} }} @else {{ @include m($n - 1) }} }} "
+                       f"a{{@include m({d})}}"}
     return P(files=f, entry="e.scss", origin="gen:" + kind)
+
+
+def variant_other_contents(p):
+    """The same paths with other contents (every integer literal in the non-entry files changed,
+    `from-x`/`only-x` markers renamed): what a stale cache keyed by path would hand to the next compilation."""
+    f = {}
+    for k, v in p["files"].items():
+        f[k] = v if k == p["entry"] else re.sub(r"\b(from|only)-", r"stale-\1-", re.sub(r"(?<![\w$#.-])(\d+)\b", lambda m: str(int(m.group(1)) + 5), v))
+    return f
+
+
+def same_path_histories(p, rng):
+    """Histories that use the SAME in-memory paths as `p`: other contents, other load-path order,
+    one candidate file missing."""
+    if not p["files"] or len(p["files"]) < 2:
+        return []
+    out = [("same-paths-other-contents", [compile_job(files=variant_other_contents(p), entry=p["entry"], **p["options"])])]
+    lps = p["options"].get("load_paths") or []
+    if len(lps) >= 2:
+        o2 = dict(p["options"])
+        o2["load_paths"] = lps[1:] + lps[:1]
+        out.append(("same-files-rotated-load-paths", [compile_job(files=p["files"], entry=p["entry"], **o2)]))
+        first = [k for k in p["files"] if k.startswith(lps[0] + "/")]
+        if first:
+            out.append(("same-paths-winner-missing", [compile_job(files={k: v for k, v in p["files"].items() if k not in first},
+                                                                  entry=p["entry"], **p["options"])]))
+    return out
 
 
 # ---- minimal past failures / known-finding witnesses: run first on every run -------------------
@@ -436,6 +484,86 @@ def unique_ids(ck, pool, tier):
                                      "verdict": o, "source": src}, tags=[])
 
 
+def concurrency_stress(ck, R, pool, programs, refs, usable, tier):
+    """Deeply recursive programs (call depth 150-200, dwelling at the bottom) compiled on 8 and 16
+    threads at once: any process-wide resource shared between compilations shows here."""
+    rng = ck.rng
+    deep = [i for i in usable if programs[i]["origin"] in ("gen:deep-fn", "gen:deep-mixin")]
+    if len(deep) < 4:
+        return
+    rounds = 3 if tier == "quick" else 12
+    jobs, meta = [], []
+    for n_threads in (8, 16):
+        for _ in range(rounds):
+            lists = [[rng.choice(deep) for _ in range(3)] for _ in range(n_threads)]
+            jobs.append({"mode": "par", "lists": [[prog_job(programs[i]) for i in l] for l in lists]})
+            meta.append((n_threads, lists))
+    res = pool.map(jobs, timeout=300)
+    for (n_threads, lists), r in zip(meta, res):
+        for t, l in enumerate(lists):
+            rl = r["results"][t] if r.get("status") == "ok" and t < len(r.get("results", [])) else None
+            for k, i in enumerate(l):
+                o = observe(rl[k]) if rl is not None and k < len(rl) else ("lost:" + str(r.get("status")), "")
+                R.compare(programs[i], {"mode": f"deep-par{n_threads}", "slot": [t, k], "_hl": (l, k)}, refs[i], o)
+    R.flush()
+
+
+def cli_processes(ck, R, pool, programs, usable, tier):
+    """Fresh OS processes through the command-line binary (`Options::load_paths`, fresh hash seeds):
+    programs whose imports have competing candidates in >= 2 load paths, run N times each; every run
+    must equal the first, and the first must equal the library's answer (runner, std Fs, same paths)."""
+    import concurrent.futures
+    import shutil
+    import subprocess
+    ok, err = vlib.build_cli()
+    if not ok or not os.path.exists(vlib.GRASS_BIN):
+        ck.notes.append("grass binary does not build: fresh-process runs through the CLI skipped (see C20)")
+        ck.hist("cli-process:skipped-no-binary")
+        return
+    rng = ck.rng
+    cand = [i for i in usable if programs[i]["origin"].startswith("gen:competing")]
+    cand = cand[:5] if tier == "quick" else cand[:24]
+    n_runs = 20 if tier == "quick" else 50
+    root = os.path.join(BUILD, f"c02-{os.getpid()}-{ck.seed}")
+    shutil.rmtree(root, ignore_errors=True)
+    try:
+        runs, lib_jobs = [], []
+        for i in cand:
+            p = programs[i]
+            d = os.path.join(root, f"p{i}")
+            for k, v in p["files"].items():
+                os.makedirs(os.path.dirname(os.path.join(d, k)), exist_ok=True)
+                with open(os.path.join(d, k), "w") as f:
+                    f.write(v)
+            lps = [os.path.join(d, x) for x in p["options"]["load_paths"]]
+            argv = [a for lp in lps for a in ("-I", lp)] + [os.path.join(d, p["entry"])]
+            runs += [(i, argv)] * n_runs
+            lib_jobs.append({"mode": "compile", "entry": os.path.join(d, p["entry"]), "fs": "std", "logger": "null",
+                             "options": {"load_paths": lps}})
+
+        def one(a):
+            try:
+                r = subprocess.run([vlib.GRASS_BIN] + a[1], stdout=subprocess.PIPE, stderr=subprocess.PIPE, timeout=120, cwd=root)
+                return ("css", r.stdout.decode("utf-8", "replace")) if r.returncode == 0 else \
+                    ("err", re.sub(r"\n$", "", r.stderr.decode("utf-8", "replace"), count=1))
+            except subprocess.TimeoutExpired:
+                return ("timeout", "")
+        with concurrent.futures.ThreadPoolExecutor(max_workers=16) as ex:
+            outs = list(ex.map(one, runs))
+        libs = [observe(a) for a in pool.map(lib_jobs, timeout=30)]
+        first = {}
+        for (i, argv), o in zip(runs, outs):
+            if i not in first:
+                first[i] = o
+                R.compare(programs[i], {"mode": "cli-vs-library", "argv": argv}, libs[cand.index(i)], o)
+            else:
+                R.compare(programs[i], {"mode": "cli-process", "argv": argv}, first[i], o)
+        ck.cov["cli_fresh_processes"] = len(runs)
+        R.flush()
+    finally:
+        shutil.rmtree(root, ignore_errors=True)
+
+
 def load_programs(ck, tier):
     cs, skipped = corpus.load()
     rng = ck.rng
@@ -451,6 +579,9 @@ def load_programs(ck, tier):
         chosen = progs
     n_gen = 160 if tier == "quick" else 3000
     gens = [gen_program(rng) for _ in range(n_gen)]
+    forced = {"deep-fn": 12, "deep-mixin": 12, "competing": 10, "competing-use": 6}
+    for k, n in forced.items():
+        gens += [gen_program(rng, k) for _ in range(n if tier == "quick" else 4 * n)]
     return chosen, gens, len(cs), skipped
 
 
@@ -463,7 +594,9 @@ def run(tier, seed):
         "unknown units with names drawn from a 13-name pool; context = one of: history of 1-3 prior compilations on the "
         "same thread (the program's own identifiers interned as variables in reversed order, as property names and units "
         "in shuffled order, as function/mixin names in sorted order; other corpus programs; the program itself), slot in "
-        "one of N threads compiling shuffled programs concurrently, fresh runner process. A case is distinct by (program "
+        "one of N threads compiling shuffled programs concurrently, fresh runner process; histories over the SAME in-memory paths "
+        "(other contents, rotated load paths, winning candidate missing) for multi-file programs; deeply recursive programs on "
+        "8/16 threads at once; programs with competing candidates in >=2 load paths run 20x through the CLI binary (fresh OS processes). A case is distinct by (program "
         "text, options, mode, history/slot); all are non-trivial (a compilation really preceded or ran beside it). "
         "Tie cases: random histories x keyword-argument calls, non-trivial when the as-found and specified orders differ.")
     ck.assumptions = [
@@ -546,6 +679,12 @@ def run(tier, seed):
             hs.append(("self", None))
             hs.append(("sorted-vars", [hist_vars(sorted(ids))]))
             hs.append(("shuf-vars", [hist_vars(rng.sample(ids, len(ids)))]))
+        same = same_path_histories(p, rng)
+        if tier == "quick" and len(same) > 2:
+            same = same[:1] + rng.sample(same[1:], 1)
+        for name, hj in same:
+            jobs.append(seq_job(hj, p))
+            meta.append((i, name, [j.get("files") for j in hj], hj))
         for name, srcs in hs:
             if name == "corpus3":
                 hj = [rng.choice(corpus_jobs) for _ in range(3)]
@@ -597,6 +736,11 @@ def run(tier, seed):
                     R.compare(programs[i], {"mode": f"par{n_threads}", "slot": [t, k], "_hl": (l, k)}, refs[i], o)
         R.flush()
         log(f"[C02] par{n_threads} done in {time.time() - t0:.1f}s")
+
+    concurrency_stress(ck, R, pool, programs, refs, usable, tier)
+    log(f"[C02] deep recursion on 8/16 threads done in {time.time() - t0:.1f}s")
+    cli_processes(ck, R, pool, programs, usable, tier)
+    log(f"[C02] fresh processes through the CLI done in {time.time() - t0:.1f}s")
 
     # fresh processes (fresh hash seeds, counters at 0, empty interners).  One runner process per
     # round; inside it 16 threads started together, each compiling a slice of the programs (the slice
